@@ -208,6 +208,25 @@ fn main() {
             }
             let it: SlotMap = m.clone().into_iter().collect();
             if &it != m { errs.push("into_iter/from_iter".into()); }
+            // construction from every listing order of the pairs (SlotMap.tla: LawFromSeq)
+            let ps: Vec<(Slot, Slot)> = s.st.pairs.iter().map(|(a, b)| (sl(*a), sl(*b))).collect();
+            for perm in verif_harness::term::perms(ps.len()) {
+                let listing: Vec<(Slot, Slot)> = perm.iter().map(|i| ps[*i]).collect();
+                let mut built: Vec<(&str, SlotMap)> = vec![("from_pairs", SlotMap::from_pairs(&listing)), ("collect", listing.iter().copied().collect())];
+                match listing.len() {
+                    2 => built.push(("From<[_;2]>", SlotMap::from([listing[0], listing[1]]))),
+                    3 => built.push(("From<[_;3]>", SlotMap::from([listing[0], listing[1], listing[2]]))),
+                    4 => built.push(("From<[_;4]>", SlotMap::from([listing[0], listing[1], listing[2], listing[3]]))),
+                    _ => {}
+                }
+                for (how, b) in built {
+                    let ok = &b == m && h(&b) == h(m) && b.cmp(m) == std::cmp::Ordering::Equal && b.len() == m.len()
+                        && b.keys_vec() == m.keys_vec() && b.values_vec() == m.values_vec()
+                        && ps.iter().all(|(k, v)| b.get(*k) == Some(*v))
+                        && (!s.st.bij || b.inverse().inverse() == *m);
+                    if !ok { errs.push(format!("construction order ({how})")); }
+                }
+            }
             let mut mm = m.clone();
             for v in mm.values_mut() { *v = *v; }
             if &mm != m { errs.push("values_mut".into()); }
